@@ -205,6 +205,11 @@ func checkC07(r *kit.Run) {
 		switch profile {
 		case "all":
 			for _, l := range c07Labels {
+				// a field that is an error prints as _|_; what kind of bottom the reprinted text
+				// evaluates to (error or incomplete) is not something printing can keep
+				if strings.HasPrefix(orig[l], "ERROR") && (strings.HasPrefix(back[l], "ERROR") || strings.HasPrefix(back[l], "incomplete|k=_|_")) {
+					continue
+				}
 				if orig[l] != back[l] {
 					r.Violation("reprint "+key, fmt.Sprintf("field %s of the printed text evaluates to something else:\n  original:  %s\n  reprinted: %s", l, orig[l], back[l]), map[string]any{"files": srcs, "printed": text, "field": l})
 					return
